@@ -475,13 +475,151 @@ var propOverlap = hx.Prop[OCase]{
 	},
 }
 
-func TestProp(t *testing.T)    { prop.Check(t); propOverlap.Check(t) }
-func TestRegress(t *testing.T) { prop.Regress(t); propOverlap.Regress(t) }
+// ---- box: content stays with its message while the mailbox around it changes ----
+
+// BCase: deliveries (body size) and deletions (negative: -(k+1) deletes the k-th message
+// currently in the mailbox, modulo its length) on one mailbox, all within moments.
+type BCase struct {
+	Backend string `json:"backend"`
+	Cap     int    `json:"cap"`
+	Steps   []int  `json:"steps"`
+}
+
+var propBox = hx.Prop[BCase]{
+	ID: pid, Name: "box",
+	Rule: "one mailbox (mem or file, cap 0/3) receives 3-14 SMTP deliveries whose bodies name their sequence number, interleaved with REST deletions " +
+		"of the first, a middle or the last message, all within the same second or two; afterwards every message still listed must be, on the store, " +
+		"the REST source endpoint and POP3 RETR, exactly the content transmitted for it, with a matching size; non-trivial = a deletion of a " +
+		"non-last message is followed by a delivery; distinct = distinct case JSON",
+	Quick: 60, Thorough: 600,
+	Gen: func(t *rapid.T) BCase {
+		c := BCase{Backend: rapid.SampledFrom([]string{"file", "file", "mem"}).Draw(t, "backend"), Cap: rapid.SampledFrom([]int{0, 0, 3}).Draw(t, "cap")}
+		n := rapid.IntRange(3, 14).Draw(t, "n")
+		for i := 0; i < n; i++ {
+			if i >= 2 && rapid.IntRange(0, 2).Draw(t, "del") == 0 {
+				c.Steps = append(c.Steps, -1-rapid.IntRange(0, 5).Draw(t, "which"))
+			} else {
+				c.Steps = append(c.Steps, rapid.SampledFrom([]int{0, 10, 200, 3000}).Draw(t, "size"))
+			}
+		}
+		return c
+	},
+	Run: func(c BCase) *hx.Outcome {
+		o := &hx.Outcome{}
+		cfg := hx.DefaultCfg()
+		cfg.Backend, cfg.Cap = c.Backend, c.Cap
+		w, err := hx.NewWorld(cfg)
+		if err != nil {
+			o.Failf(pid+":harness", "world: %v", err)
+			return o
+		}
+		defer w.Close()
+		cl, _, err := w.DialSMTP()
+		if err != nil {
+			o.Failf(pid+":harness", "dial: %v", err)
+			return o
+		}
+		defer cl.Close()
+		if r, err := cl.Cmd("EHLO c.test"); err != nil || r.Code != 250 {
+			o.Failf(pid+":harness", "EHLO %v %v", r, err)
+			return o
+		}
+		var want []*hx.EMsg // what the mailbox should list, oldest first
+		delThenAdd, deleted := false, false
+		for k, st := range c.Steps {
+			if st < 0 {
+				if len(want) == 0 {
+					continue
+				}
+				j := (-1 - st) % len(want)
+				ms, err := w.Store.GetMessages("box")
+				if err != nil || len(ms) != len(want) {
+					o.Failf(pid+":box-listing", "step %d: the mailbox lists %d messages, expected %d (err %v)", k, len(ms), len(want), err)
+					return o
+				}
+				req, _ := http.NewRequest("DELETE", w.HTTP.URL+"/api/v1/mailbox/box/"+ms[j].ID(), nil)
+				resp, err := http.DefaultClient.Do(req)
+				if err != nil || resp.StatusCode != 200 {
+					o.Failf(pid+":harness", "step %d: REST delete: %v %v", k, resp, err)
+					return o
+				}
+				resp.Body.Close()
+				if j < len(want)-1 {
+					deleted = true
+				}
+				want = append(append([]*hx.EMsg{}, want[:j]...), want[j+1:]...)
+				continue
+			}
+			if deleted {
+				delThenAdd = true
+			}
+			subject := fmt.Sprintf("box message %d", k)
+			data := []byte(fmt.Sprintf("Subject: %s\r\nFrom: a@a.test\r\n\r\n%s\r\n", subject, strings.Repeat(fmt.Sprintf("<%d>", k), st/3+1)))
+			for _, s := range []string{"MAIL FROM:<s@a.test>", "RCPT TO:<box@a.test>", "DATA"} {
+				if r, err := cl.Cmd(s); err != nil || (r.Class() != 2 && r.Code != 354) {
+					o.Failf(pid+":harness", "step %d: %q: %v %v", k, s, r, err)
+					return o
+				}
+			}
+			t0 := time.Now()
+			if r, err := cl.Data(data); err != nil || r.Code != 250 {
+				o.Failf(pid+":message-refused", "step %d: a %d-byte message was answered %v (err %v)", k, len(data), r, err)
+				return o
+			}
+			_, tx := hx.DotStuff(data)
+			want = append(want, &hx.EMsg{Mailbox: "box", From: (&hx.Addr{Address: "a@a.test"}).Mail(), To: []*mailAddr{{Address: "box@a.test"}},
+				Subject: subject, Sender: "s@a.test", Helo: "c.test", Data: tx, NotBefo: t0, NotAfter: time.Now()})
+			if c.Cap > 0 && len(want) > c.Cap {
+				want = want[len(want)-c.Cap:]
+			}
+		}
+		model := hx.NewEModel()
+		for _, e := range want {
+			model.Add(e)
+		}
+		if err := hx.CmpE2E(w.Store, model, []string{"box"}); err != nil {
+			o.Failf(pid+":box-content", "[%s cap=%d] steps %v: %v", c.Backend, c.Cap, c.Steps, err)
+			return o
+		}
+		ms, _ := w.Store.GetMessages("box")
+		pc, _, err := w.DialPOP3()
+		if err != nil {
+			o.Failf(pid+":harness", "pop3 dial: %v", err)
+			return o
+		}
+		defer pc.Close()
+		if pr, err := pc.Login("box"); err != nil || !pr.OK {
+			o.Failf(pid+":harness", "pop3 login: %v %v", pr, err)
+			return o
+		}
+		for i, sm := range ms {
+			src, _ := hx.ReadSource(sm)
+			code, b, err := httpGet(w.HTTP.URL + "/api/v1/mailbox/box/" + sm.ID() + "/source")
+			if err != nil || code != 200 || !bytes.Equal(b, src) {
+				o.Failf(pid+":http-source-differs", "[%s] message #%d (%s): REST source status %d err %v, %d bytes, stored source %d bytes%s", c.Backend, i, sm.ID(), code, err, len(b), len(src), firstDiff(b, src))
+			}
+			pr, err := pc.Cmd(fmt.Sprintf("RETR %d", i+1), true)
+			if err != nil || !pr.OK {
+				o.Failf(pid+":pop3-retr", "RETR %d: %q err %v", i+1, pr.Status, err)
+				return o
+			}
+			if got, wantb := hx.Canon(hx.JoinLines(pr.Lines)), hx.Canon(src); !bytes.Equal(got, wantb) {
+				o.Failf(pid+":pop3-content-differs", "[%s] RETR %d returned %d bytes, stored source canonically %d bytes%s", c.Backend, i+1, len(got), len(wantb), firstDiff(got, wantb))
+			}
+		}
+		o.NonTrivial = delThenAdd
+		o.Class("backend " + c.Backend)
+		return o
+	},
+}
+
+func TestProp(t *testing.T)    { prop.Check(t); propOverlap.Check(t); propBox.Check(t) }
+func TestRegress(t *testing.T) { prop.Regress(t); propOverlap.Regress(t); propBox.Regress(t) }
 func TestReplay(t *testing.T) {
 	if *hx.ReplayPath == "" {
 		t.Skip("no -replay")
 	}
-	if !prop.Replay(t, *hx.ReplayPath) && !propOverlap.Replay(t, *hx.ReplayPath) {
+	if !prop.Replay(t, *hx.ReplayPath) && !propOverlap.Replay(t, *hx.ReplayPath) && !propBox.Replay(t, *hx.ReplayPath) {
 		t.Fatalf("no prop matches %s", *hx.ReplayPath)
 	}
 }
